@@ -11,7 +11,9 @@
    ("every framework task runs until nothing is runnable"); a receive that finds nothing
    buffered forces the same.  C18 proves what the pump can hold: capacity + 1 events.
 
-   [fixed] selects the repaired close() (fixes/C17-*.patch); fixed = false is the code as found. *)
+   [fixed] selects the repaired code (fixes/C17-close-send-failure.patch: close() sends through
+   _send; fixes/C17-receive-after-stopped-receiver.patch: close() validates before it stops the
+   receiver, receive on a stopped receiver); fixed = false is the code as found. *)
 From Coq Require Import ZArith NArith List Bool Arith.
 From Falcon.gen Require Import ConstsC17.
 Import ListNotations.
@@ -204,10 +206,11 @@ Definition code_check (ca : codearg) : option Z + exc :=
    regenerated into gen/ConstsC17.v on every run) *)
 Definition op_close (fixed : bool) (has_reason : Z -> bool) (c : cfg) (ca : codearg) (reason : bool)
            (w0 : ws) : result * ws :=
-  (* await self._buffered_receiver.stop() *)
+  (* await self._buffered_receiver.stop(): before the validation in the code as found,
+     after it in the repaired code (a rejected call then has no effect at all) *)
   let w := set_pump false (set_hand None w0) in
   match code_check ca with
-  | inr x => (Raise x, w)
+  | inr x => (Raise x, if fixed then w0 else w)
   | inl co =>
     let code := or1000 co in
     if is_closed w then
@@ -254,7 +257,7 @@ Definition op_send_media (bin : bool) (n : N) (w : ws) : result * ws :=
   end.
 
 (* self._asgi_receive(): the next client event, or Blocked when none will ever come *)
-Definition next_event (c : cfg) (w : ws) : (cev + exc + unit) * ws :=
+Definition next_event (fixed : bool) (c : cfg) (w : ws) : (cev + exc + unit) * ws :=
   if (cap c =? 0)%nat then
     match client w with
     | e :: r =>
@@ -262,7 +265,16 @@ Definition next_event (c : cfg) (w : ws) : (cev + exc + unit) * ws :=
        set_handed (handed w || match e with CDisc _ => true | _ => false end) (set_client r w))
     | [] => (inr tt, w)
     end
-  else if negb (pump w) then (inl (inr XAssert), w)      (* assert self._pump_task is not None *)
+  else if negb (pump w) then
+    (* the receiver was stopped by close() although the socket is not CLOSED.
+       As found: assert self._pump_task is not None.  Repaired: what is queued is delivered
+       in order, then a disconnect event (with the client's code when it is known) *)
+    if fixed then
+      match queue w with
+      | e :: r => (inl (inl e), set_queue r w)
+      | [] => (inl (inl (CDisc (flag w))), w)
+      end
+    else (inl (inr XAssert), w)
   else
     let w1 := match queue w with [] => advance c w | _ => w end in
     match queue w1 with
@@ -271,18 +283,18 @@ Definition next_event (c : cfg) (w : ws) : (cev + exc + unit) * ws :=
     end.
 
 (* WebSocket._receive *)
-Definition do_receive (c : cfg) (w : ws) : (cev + exc + unit) * ws :=
-  match next_event c w with
+Definition do_receive (fixed : bool) (c : cfg) (w : ws) : (cev + exc + unit) * ws :=
+  match next_event fixed c w with
   | (inl (inl (CDisc co)), w1) =>
     (inl (inr (XDisc (or1000 co))), set_st Closed (set_ccode (Some (or1000 co)) w1))
   | r => r
   end.
 
-Definition op_recv (kind : nat) (c : cfg) (w : ws) : result * ws :=
+Definition op_recv (fixed : bool) (kind : nat) (c : cfg) (w : ws) : result * ws :=
   match require_accepted w with
   | Some x => (Raise x, w)
   | None =>
-    match do_receive c w with
+    match do_receive fixed c w with
     | (inl (inl e), w1) =>
       (match kind, e with
        | O, CText n => Ret (VText n)
@@ -308,9 +320,9 @@ Definition run_op (fixed : bool) (hr : Z -> bool) (c : cfg) (o : op) (w : ws) : 
   | OSendText p => op_send_text p w
   | OSendData p => op_send_data p w
   | OSendMedia b n => op_send_media b n w
-  | ORecvText => op_recv 0 c w
-  | ORecvData => op_recv 1 c w
-  | ORecvMedia => op_recv 2 c w
+  | ORecvText => op_recv fixed 0 c w
+  | ORecvData => op_recv fixed 1 c w
+  | ORecvMedia => op_recv fixed 2 c w
   | ORaise r => (Raise (raise_exc r), w)
   | OAdvance => (Ret VNone, advance c w)
   end.
